@@ -55,7 +55,7 @@ func FuncFull(f *ssa.Function) string {
 	s := f.String()
 	s = strings.TrimSuffix(s, "$bound")
 	s = strings.TrimSuffix(s, "$thunk")
-	return s
+	return recordedString(s)
 }
 
 // Origin returns the generic origin for instantiated functions, else f.
